@@ -419,6 +419,11 @@ func checkC15(c *Ctx) {
 					}
 					r := c.condRel(it)
 					if o, ok := r.Orient("len(", "fld:"+w.Key+".minSize"); ok && o.Pred == "" {
+						if strings.Contains(o.X, "phi(") || !strings.HasPrefix(o.X, "len(") {
+							// the quantity compared is the buffered length on some paths only (a declared
+							// Content-Length, say, on the others): it says nothing about the bytes at hand
+							return "compressed", "the size test compares a value that is not always the length of the buffered body (" + o.X + "): a response that declares a length ≥ min_size but carries fewer bytes (HEAD, 304) is compressed"
+						}
 						if o.Lo == 0 && o.Hi == posInf {
 							need["min-size"] = true
 						} else {
